@@ -257,6 +257,12 @@ def _inline_once(f):
             x = parents.get(x)
         return out
 
+    def stmt_line(node):
+        x = node
+        while x is not None and not isinstance(x, ast.stmt):
+            x = parents.get(x)
+        return x.lineno if x is not None else node.lineno
+
     changed = False
     for name, d in cands.items():
         uses = [n for n in ast.walk(f) if isinstance(n, ast.Name) and n.id == name and isinstance(n.ctx, ast.Load)]
@@ -264,6 +270,9 @@ def _inline_once(f):
             continue
         free = {x.id for x in ast.walk(d.value) if isinstance(x, ast.Name)}
         if name in free:
+            continue
+        # an expression with a call is evaluated once: move it only to a single reader
+        if len(uses) > 1 and any(isinstance(x, ast.Call) for x in ast.walk(d.value)):
             continue
         dl = loops_of(d)
         ok_all = True
@@ -282,10 +291,11 @@ def _inline_once(f):
                 lo = min(l.lineno for l in inner)
                 hi = max(getattr(l, "end_lineno", l.lineno) for l in inner)
             else:
-                lo, hi = d.lineno, u.lineno
+                lo, hi = d.lineno, stmt_line(u) - 1
             for x in free:
                 for s in stores.get(x, []):
-                    if min(lo, d.lineno) < s.lineno <= max(hi, u.lineno) and s is not d.targets[0]:
+                    # (the statement that reads the temporary evaluates it before its own store)
+                    if min(lo, d.lineno) < stmt_line(s) <= max(hi, stmt_line(u) - 1) and s is not d.targets[0]:
                         ok_all = False
             # calls may have effects: only move a call if nothing is stored at all in between
             if not ok_all:
